@@ -37,13 +37,13 @@ fn jobs(plan: &Plan) -> Vec<Job> {
             }
         }
     }
-    for h in 0..t.pick(14, 60, 2) {
+    for h in 0..t.pick(28, 60, 2) {
         v.push(standalone("huffman", "special", h, special));
     }
-    for h in 0..t.pick(60, 3000, 3) {
+    for h in 0..t.pick(400, 3000, 3) {
         v.push(standalone("huffman", "random", h, random));
     }
-    for h in 0..t.pick(12, 200, 1) {
+    for h in 0..t.pick(40, 200, 1) {
         v.push(standalone("huffman", "raw", h, raw_mode));
     }
     v
